@@ -197,6 +197,11 @@ func famShutdown(w *World, c *Case, rng *rand.Rand) {
 			s.Client = []Op{{K: "open"}, {K: "send", N: 40000}, {K: "close"}, {K: "recvall"}}
 			s.Handler = []Op{{K: "recvall"}, {K: "send", N: 5}, {K: "ret"}}
 		}
+		// "every RPC subsequently started": also those naming a method or service that does not
+		// exist, or a malformed name - they, too, are refused with Unavailable, not judged on their merits
+		if (i+step)%3 == 2 {
+			s.RawMethod = []string{"/verif.Svc/NoSuchMethod", "/no.such.Service/X", "no-slash-at-all", "/"}[(i+late+step)%4]
+		}
 		lates = append(lates, s)
 		w.Env.StartRPC(context.Background(), ch, s)
 		if gated {
